@@ -1,6 +1,7 @@
 import ALV.Common.Json
 import ALV.Model.C04
 import ALV.Spec.C04
+import ALV.Spec.C04Hist
 namespace ALV.Driver.C04
 open ALV ALV.J ALV.C04
 
@@ -14,7 +15,19 @@ open ALV ALV.J ALV.C04
     zero : q ; xs : [q …]
   payload: {"model": {"err":kind} | {"out":[…],"ir":IR,"b":[…],"a":[…],"mem":[…]},
             "spec" : {"err":kind} | {"out":[…]}}
+            with "fast": true the generated loop is not executed statement by statement (O(order²) per
+            sample) and "out" is left out of "model": the caller compares with "spec", which is
+            the same list by theorem filterCall_eq_specCall
   entry "compile":  b, a : dense lists, zero  →  {"ir": IR}
+  entry "cascade":  num, den, zero, xs as for "call"; mems : [mem …] one per stage (null = None):
+                    f(f(…f(xs, m₁)…), m_k) with ONE filter object
+  entry "hist":  ops : [["nums",c,[q…]] | ["coefs",c,[[power,q]…]] | ["build",f,n,d] |
+                        ["call",s,f,x,m|null,zero] | ["take",s,k]]
+    payload: {"model":[obs…], "spec":[obs…]}, one observation per op:
+      {"k":"stored"} | {"k":"ok"} | {"k":"err","err":kind} | {"k":"unbound"} |
+      {"k":"outs","ys":[…],"ended":bool}  (spec: + "seen": the input items delivered so far);
+    the model's observation of a successful call also carries "ir","b","a","mem" (the source it
+    generates at that call, the dense coefficients and the private memory list)
 -/
 
 def getPair (j : Json) : Except String (Int × Rat) := do
@@ -76,6 +89,61 @@ def irJson : IR Rat → Json
 
 def errJson (e : Err) : Json := Json.mkObj [("err", Json.str e.name)]
 
+def getOp (j : Json) : Except String (HOp Rat) := do
+  match j with
+  | Json.arr (Json.str "nums" :: c :: v :: []) => pure (.setNums (← getNat c) (← getList getRat v))
+  | Json.arr (Json.str "coefs" :: c :: v :: []) => pure (.setCoefs (← getNat c) (← getList getPair v))
+  | Json.arr (Json.str "build" :: f :: n :: d :: []) => pure (.build (← getNat f) (← getNat n) (← getNat d))
+  | Json.arr (Json.str "call" :: s :: f :: x :: m :: z :: []) =>
+    let mem ← match m with
+      | Json.null => pure none
+      | m => (some <$> getNat m)
+    pure (.call (← getNat s) (← getNat f) (← getNat x) mem (← getRat z))
+  | Json.arr (Json.str "take" :: s :: k :: []) => pure (.take (← getNat s) (← getNat k))
+  | _ => throw s!"unknown history op {j.compress}"
+
+def obsJson (extra : List (String × Json)) : HObs Rat → Json
+  | .stored => Json.mkObj [("k", Json.str "stored")]
+  | .ok => Json.mkObj ([("k", Json.str "ok")] ++ extra)
+  | .err e => Json.mkObj [("k", Json.str "err"), ("err", Json.str e.name)]
+  | .unbound => Json.mkObj [("k", Json.str "unbound")]
+  | .outs ys ended => Json.mkObj [("k", Json.str "outs"), ("ys", rats ys), ("ended", Json.bool ended)]
+
+/-- what the model generates at a successful call (shown for the structural tie T3) -/
+def callExtra (st : HState Rat (Terms Rat × Terms Rat) (Gen Rat)) : HOp Rat → List (String × Json)
+  | .call _ f _ mem zero =>
+    match st.filts f with
+    | some o =>
+      let a := dense o.2
+      let b := dense o.1
+      [("ir", irJson (compile b a zero)), ("b", rats b), ("a", rats a),
+       ("mem", rats (memoryOf zero (a.length - 1) (memArg st.nums mem)))]
+    | none => []
+  | _ => []
+
+def histModelJson : HState Rat (Terms Rat × Terms Rat) (Gen Rat) → List (HOp Rat) → List Json
+  | _, [] => []
+  | st, op :: ops =>
+    let r := hstep modelImpl st op
+    obsJson (callExtra st op) r.1 :: histModelJson r.2 ops
+
+/-- what the specification's stream has been delivered so far (shown after a request, for the
+rounding-error bound of the float regime) -/
+def seenExtra (st : HState Rat (SFilt Rat) (SStrm Rat)) : HOp Rat → List (String × Json)
+  | .take s _ =>
+    match st.strms s with
+    | some t => [("seen", rats t.gen.seen)]
+    | none => []
+  | _ => []
+
+def histSpecJson : HState Rat (SFilt Rat) (SStrm Rat) → List (HOp Rat) → List Json
+  | _, [] => []
+  | st, op :: ops =>
+    let r := hstep specImpl st op
+    (match obsJson [] r.1 with
+      | Json.obj kv => Json.obj (kv ++ seenExtra r.2 op)
+      | j => j) :: histSpecJson r.2 ops
+
 def handle (entry : String) (j : Json) : Except String Json := do
   match entry with
   | "call" =>
@@ -84,21 +152,50 @@ def handle (entry : String) (j : Json) : Except String Json := do
     let mem ← getMem j
     let zero ← getRat (← field j "zero")
     let xs ← getList getRat (← field j "xs")
+    let fast := match optField j "fast" with
+      | some (Json.bool true) => true
+      | _ => false
     -- model: every intermediate stage is shown, so that the tie sees where a difference enters
     let model : Json :=
       match normalise (mkPoly num) (mkPoly den) with
       | .error e => errJson e
       | .ok (n, d) =>
-        match call n d mem zero xs with
+        match call n d mem zero (if fast then [] else xs) with
         | .error e => errJson e
         | .ok out =>
           let a := dense d
           let b := dense n
-          Json.mkObj [("out", rats out), ("ir", irJson (compile b a zero)),
-                      ("b", rats b), ("a", rats a),
-                      ("mem", rats (memoryOf zero (a.length - 1) mem))]
+          Json.mkObj ((if fast then [] else [("out", rats out)]) ++
+                      [("ir", irJson (compile b a zero)),
+                       ("b", rats b), ("a", rats a),
+                       ("mem", rats (memoryOf zero (a.length - 1) mem))])
     let spec : Json :=
       match specCall num den mem zero xs with
+      | .error e => errJson e
+      | .ok out => Json.mkObj [("out", rats out)]
+    pure <| Json.mkObj [("model", model), ("spec", spec)]
+  | "hist" =>
+    let ops ← getList getOp (← field j "ops")
+    pure <| Json.mkObj [("model", Json.arr (histModelJson HState.empty ops)),
+                        ("spec", Json.arr (histSpecJson HState.empty ops))]
+  | "cascade" =>
+    -- the same filter applied to its own output, one memory per stage
+    let num ← getList getPair (← field j "num")
+    let den ← getList getPair (← field j "den")
+    let zero ← getRat (← field j "zero")
+    let xs ← getList getRat (← field j "xs")
+    let mems ← getList (fun m => getMem (Json.mkObj [("mem", m)])) (← field j "mems")
+    let model : Json :=
+      match cascadeWith (fun m ys => filterCall num den m zero ys) mems xs with
+      | .error e => errJson e
+      | .ok out =>
+        match normalise (mkPoly num) (mkPoly den) with
+        | .error e => errJson e
+        | .ok (n, d) =>
+          Json.mkObj [("out", rats out), ("ir", irJson (compile (dense n) (dense d) zero)),
+                      ("b", rats (dense n)), ("a", rats (dense d))]
+    let spec : Json :=
+      match cascadeWith (fun m ys => specCall num den m zero ys) mems xs with
       | .error e => errJson e
       | .ok out => Json.mkObj [("out", rats out)]
     pure <| Json.mkObj [("model", model), ("spec", spec)]
